@@ -9,71 +9,148 @@ import (
 	"golang.org/x/tools/go/ssa"
 )
 
+// ---- C12.A1: an auth scheme answers true only from the Match of its credential store ----------------------------------
+
 func runC12A1(c *Ctx) {
 	sp := c.spkg("auth")
 	if sp == nil {
 		c.undecided("C12.A1", "anchor|package auth", "not loaded")
 		return
 	}
+	matcher := &c12Eng{leaf: c12CredentialMatch}
 	n := 0
 	for _, f := range c.AllFns {
-		if rootPkg(f) != sp || f.Name() != "Authorized" || f.Signature.Recv() == nil {
+		if rootPkg(f) != sp || f.Name() != "Authorized" || f.Signature.Recv() == nil || f.Parent() != nil {
 			continue
 		}
 		n++
-		eachInstr(f, func(i ssa.Instruction) {
-			r, ok := i.(*ssa.Return)
-			if !ok || len(r.Results) != 1 {
-				return
+		for _, vr := range c12VirtualReturns(f, 0) {
+			if !vr.val {
+				continue
 			}
-			if bv, isK := constBool(r.Results[0]); isK {
-				if !bv {
-					return
-				}
-				// `return true` must be under a true verdict of the matcher
-				ok2 := false
-				for _, ft := range factsAt(r.Block()) {
-					if call, isC := ft.Cond.(*ssa.Call); isC && ft.Truth && strings.HasSuffix(calleeName(&call.Call), ".Match") {
-						ok2 = true
-					}
-				}
-				c.check("C12.A1", fnKey(f)+"|credentials accepted only by the matcher", r.Pos(), ok2,
-					"an auth scheme may answer true only on the edge where the credential store's Match accepted this request's credentials; a verdict from anything else (a cache of earlier headers, a flag) keeps admitting credentials after they were removed or rotated")
-				return
-			}
-			call, isC := r.Results[0].(*ssa.Call)
-			c.check("C12.A1", fnKey(f)+"|credentials accepted only by the matcher", r.Pos(), isC && strings.HasSuffix(calleeName(&call.Call), ".Match"),
-				"the verdict of an auth scheme must be the credential store's Match on this request's credentials")
-		})
+			_, ok := matcher.holds(vr)
+			c.check("C12.A1", fnKey(f)+"|credentials accepted only by the matcher", vr.pos, ok,
+				"an auth scheme may answer true only on the edge where the credential store's Match accepted this request's credentials; a verdict from anything else (a cache of earlier headers, a flag) keeps admitting credentials after they were removed or rotated")
+		}
 	}
 	c.atLeast("C12.A1", "auth scheme implementations", n, 1)
 }
 
-// ---- C13.L2: the self-redirect test compares scheme, full host (with port) and path ------------------------------
+// c12CredentialMatch: the branch condition is the positive verdict of a credential comparison on this request: the
+// Match of a credential store (htpasswd.File.Match), or the standard constant-time / hash comparisons.
+func c12CredentialMatch(cond ssa.Value, truth bool) (ssa.Value, bool) {
+	if call, ok := cond.(*ssa.Call); ok && truth {
+		n := calleeName(&call.Call)
+		return nil, strings.HasSuffix(n, ".Match") || n == "crypto/hmac.Equal"
+	}
+	x, cons := c12ConsOfFact(cond, truth)
+	call, ok := x.(*ssa.Call)
+	if !ok || x == cond {
+		return nil, false
+	}
+	switch calleeName(&call.Call) {
+	case "crypto/subtle.ConstantTimeCompare":
+		return nil, cons.kind == 'i' && cons.n == 1 && cons.eq
+	case "golang.org/x/crypto/bcrypt.CompareHashAndPassword":
+		return nil, cons.kind == 'n' && cons.eq
+	}
+	return nil, false
+}
+
+// ---- C12.X1 (text part): an X-Forwarded-For element is judged as written ----------------------------------------------
+
+// c12IsXFF: v is the X-Forwarded-For header of a request: Header.Get / Header.Values / Header[...] with that key.
+func c12IsXFF(v ssa.Value) bool {
+	switch x := v.(type) {
+	case *ssa.Call:
+		n := calleeName(&x.Call)
+		if (strings.HasSuffix(n, "Header).Get") || strings.HasSuffix(n, "Header).Values")) && len(x.Call.Args) >= 2 {
+			s, _ := constString(x.Call.Args[1])
+			return strings.EqualFold(s, "X-Forwarded-For")
+		}
+	case *ssa.Lookup:
+		if strings.HasSuffix(typeStr(x.X.Type()), "http.Header") {
+			s, _ := constString(x.Index)
+			return strings.EqualFold(s, "X-Forwarded-For")
+		}
+	}
+	return false
+}
+
+// c12AddrChars: a constant separator / cut set that contains a character an IP literal can contain.
+func c12AddrChars(s string) bool {
+	return strings.ContainsAny(s, "0123456789abcdefABCDEF.:%[]")
+}
+
+// c12ElementKeeping: a standard-library call on the way from the header to net.ParseIP that leaves each element as
+// written: trimming white space, splitting at separators that cannot be part of an address.
+func c12ElementKeeping(call *ssa.Call) (arg ssa.Value, ok bool, why string) {
+	name := c12BaseName(calleeName(&call.Call))
+	args := call.Call.Args
+	constArgs := func(from int) (bool, string) {
+		for _, a := range args[from:] {
+			if _, isInt := constInt(a); isInt {
+				continue
+			}
+			s, isK := constString(a)
+			if !isK {
+				return false, "a call to " + name + " with a separator that is not a constant"
+			}
+			if c12AddrChars(s) {
+				return false, "a call to " + name + " cutting at \"" + s + "\", characters an address can contain"
+			}
+		}
+		return true, ""
+	}
+	switch name {
+	case "strings.TrimSpace", "strings.Fields", "strings.FieldsSeq", "net/textproto.TrimString", "strings.Clone", "strings.ToLower", "strings.ToUpper",
+		"slices.Values", "slices.All", "strings.FieldsFunc", "strings.FieldsFuncSeq", "strings.TrimFunc", "strings.TrimLeftFunc", "strings.TrimRightFunc":
+		if len(args) > 0 {
+			return args[0], true, ""
+		}
+	case "strings.Trim", "strings.TrimLeft", "strings.TrimRight", "strings.TrimPrefix", "strings.TrimSuffix",
+		"strings.Split", "strings.SplitN", "strings.SplitAfter", "strings.SplitAfterN", "strings.SplitSeq", "strings.SplitAfterSeq", "strings.Cut",
+		"strings.CutPrefix", "strings.CutSuffix", "strings.ReplaceAll", "strings.Replace":
+		if len(args) >= 2 {
+			if good, why := constArgs(1); !good {
+				return nil, false, why
+			}
+			return args[0], true, ""
+		}
+	case "strings.Join":
+		if len(args) == 2 {
+			if good, why := constArgs(1); !good {
+				return nil, false, why
+			}
+			return args[0], true, ""
+		}
+	case "net.SplitHostPort":
+		return args[0], true, ""
+	}
+	return nil, false, "a call to " + name
+}
 
 func runC12X1(c *Ctx) {
 	f := c.method("route", "Target", "AccessDeniedHTTP")
 	if !c.need("C12.X1", f, "route.Target.AccessDeniedHTTP") {
 		return
 	}
-	isXFF := func(v ssa.Value) bool {
-		call, ok := v.(*ssa.Call)
-		if !ok || !strings.HasSuffix(calleeName(&call.Call), "Header).Get") || len(call.Call.Args) < 2 {
-			return false
-		}
-		s, _ := constString(call.Call.Args[1])
-		return strings.EqualFold(s, "X-Forwarded-For")
-	}
-	okCalls := map[string]bool{"strings.TrimSpace": true, "strings.Trim": true, "strings.Split": true, "strings.SplitN": true, "strings.Fields": true,
-		"strings.FieldsFunc": true, "net.SplitHostPort": true, "strings.TrimPrefix": true, "strings.TrimSuffix": true}
 	n := 0
-	eachInstr(f, func(i ssa.Instruction) {
+	eachInstrOf(c12Region(c, f), func(_ *ssa.Function, i ssa.Instruction) {
 		cc := callCommon(i)
-		if cc == nil || calleeName(cc) != "net.ParseIP" || !derivesThroughRepo(cc.Args[0], isXFF) {
+		if cc == nil || len(cc.Args) == 0 {
+			return
+		}
+		switch calleeName(cc) {
+		case "net.ParseIP", "net/netip.ParseAddr":
+		default:
+			return
+		}
+		if !c12Derives(cc.Args[0], nil, c12IsXFF) {
 			return
 		}
 		n++
-		// walk the slice from the parsed text back to the header; every step must keep the element intact
+		// walk from the parsed text back to the header; every step must keep the element intact
 		bad := ""
 		seen := map[ssa.Value]bool{}
 		var walk func(v ssa.Value, depth int)
@@ -82,6 +159,9 @@ func runC12X1(c *Ctx) {
 				return
 			}
 			seen[v] = true
+			if c12IsXFF(v) {
+				return
+			}
 			switch x := v.(type) {
 			case *ssa.Slice:
 				if _, isStr := x.X.Type().Underlying().(*types.Basic); isStr {
@@ -97,26 +177,74 @@ func runC12X1(c *Ctx) {
 				walk(x.X, depth+1)
 			case *ssa.IndexAddr:
 				walk(x.X, depth+1)
+			case *ssa.Index:
+				walk(x.X, depth+1)
 			case *ssa.Extract:
 				walk(x.Tuple, depth+1)
+			case *ssa.Next:
+				walk(x.Iter, depth+1)
+			case *ssa.Range:
+				walk(x.X, depth+1)
+			case *ssa.ChangeType:
+				walk(x.X, depth+1)
+			case *ssa.Convert:
+				walk(x.X, depth+1)
 			case *ssa.Alloc:
-				for _, d := range defsOf(x) {
-					walk(d.Val, depth+1)
+				for _, r := range *x.Referrers() {
+					switch y := r.(type) {
+					case *ssa.Store:
+						if y.Addr == ssa.Value(x) {
+							walk(y.Val, depth+1)
+						}
+					case *ssa.IndexAddr:
+						for _, r2 := range *y.Referrers() {
+							if st, ok := r2.(*ssa.Store); ok && st.Addr == ssa.Value(y) {
+								walk(st.Val, depth+1)
+							}
+						}
+					}
+				}
+			case *ssa.Parameter:
+				// the text was handed in by the callers
+				fn := x.Parent()
+				for k, p := range fn.Params {
+					if p != x {
+						continue
+					}
+					for _, s := range gSites[fn] {
+						if a := s.Common().Args; k < len(a) {
+							walk(a[k], depth+1)
+						}
+					}
+				}
+				if len(gSites[fn]) == 0 {
+					for _, a := range c12CombinatorOperands(fn) {
+						walk(a, depth+1)
+					}
+				}
+			case *ssa.FreeVar:
+				fn := x.Parent()
+				if fn.Parent() == nil {
+					return
+				}
+				for k, fv := range fn.FreeVars {
+					if fv != x {
+						continue
+					}
+					eachInstr(fn.Parent(), func(j ssa.Instruction) {
+						if mc, ok := j.(*ssa.MakeClosure); ok && mc.Fn == fn && k < len(mc.Bindings) {
+							walk(mc.Bindings[k], depth+1)
+						}
+					})
 				}
 			case *ssa.Call:
-				if isXFF(x) {
-					return
-				}
-				name := calleeName(&x.Call)
-				if okCalls[name] {
-					walk(x.Call.Args[0], depth+1)
-					return
-				}
 				if sc := x.Call.StaticCallee(); sc != nil && isRepoFn(sc) && len(sc.Blocks) > 0 {
 					eachInstr(sc, func(j ssa.Instruction) {
 						if r, ok := j.(*ssa.Return); ok {
 							for _, res := range r.Results {
 								if bt, ok := res.Type().Underlying().(*types.Basic); ok && bt.Kind() == types.String {
+									walk(res, depth+1)
+								} else if _, isSl := res.Type().Underlying().(*types.Slice); isSl {
 									walk(res, depth+1)
 								}
 							}
@@ -127,16 +255,23 @@ func runC12X1(c *Ctx) {
 					}
 					return
 				}
-				bad = "a call to " + name
-			case *ssa.Parameter, *ssa.Const, *ssa.FreeVar, *ssa.Global:
-			default:
+				if strings.HasPrefix(calleeName(&x.Call), "builtin.") {
+					for _, a := range x.Call.Args {
+						walk(a, depth+1)
+					}
+					return
+				}
+				arg, ok, why := c12ElementKeeping(x)
+				if !ok {
+					bad = why
+					return
+				}
+				walk(arg, depth+1)
 			}
 		}
 		walk(cc.Args[0], 0)
 		c.check("C12.X1", "(*route.Target).AccessDeniedHTTP|X-Forwarded-For element judged as written", i.Pos(), bad == "",
 			"the text handed to net.ParseIP must be the header element itself (split, trimmed); here it passes through "+bad+": address surgery on an element (cutting at a ':' to drop a port) mangles bare IPv6 addresses, the element then fails to parse and is skipped — or parses as a different address — and a request whose chain names a non-admitted address is let through")
 	})
-	c.atLeast("C12.X1", "X-Forwarded-For elements parsed in AccessDeniedHTTP", n, 1)
+	c.atLeast("C12.X1", "X-Forwarded-For elements parsed on behalf of AccessDeniedHTTP", n, 1)
 }
-
-// ---- C13.E2: the redirect is built from the request URL with its encoded path --------------------------------
